@@ -191,24 +191,49 @@ impl<'a, T: Elem + SatisfyTraits<Tr>, M: MemCaps, Tr: ?Sized + TrCaps> Cx<'a, T,
 
     /// Consume an owned erased value (removal handle / drained element) according to `sink`.
     pub fn consume<H: AnyValueMut>(&mut self, mut h: H, sink: &Sink) {
+        let un = sink.unchecked;
         match sink.pre {
             Pre::None => {}
+            Pre::Mutate(n) if un => unsafe { h.downcast_mut_unchecked::<T>() }.set_id(n),
             Pre::Mutate(n) => match h.downcast_mut::<T>() {
                 Some(r) => r.set_id(n),
                 None => self.note("downcast_mut::<T>() returned None for the right type".into()),
             },
             Pre::SwapWrapper(n) => {
                 let mut w = AnyValueWrapper::new(T::make(n));
-                h.swap(&mut w);
+                if un {
+                    unsafe { h.swap_unchecked(&mut w) }
+                } else {
+                    h.swap(&mut w);
+                }
                 drop(w);
             }
             Pre::SwapRaw(n) => {
                 let mut slot = RawSlot::<T>::new(n);
                 let mut raw = unsafe { AnyValueRaw::new(slot.ptr(), size_of::<T>(), TypeId::of::<T>()) };
-                h.swap(&mut raw);
+                if un {
+                    unsafe { raw.swap_unchecked(&mut h) }
+                } else {
+                    h.swap(&mut raw);
+                }
                 drop(slot);
             }
             Pre::Inspect => self.check_handle(&h, None, "owned handle"),
+        }
+        if un {
+            match sink.fin {
+                Fin::Downcast => {
+                    let t = unsafe { h.downcast_unchecked::<T>() };
+                    self.val(probe_val(&t));
+                    return drop(t);
+                }
+                Fin::Ref => {
+                    let v = probe_val(unsafe { h.downcast_ref_unchecked::<T>() });
+                    self.val(v);
+                    return drop(h);
+                }
+                _ => {}
+            }
         }
         match sink.fin {
             Fin::Drop => drop(h),
@@ -677,6 +702,10 @@ impl<'a, T: Elem + SatisfyTraits<Tr>, M: MemCaps, Tr: ?Sized + TrCaps> Cx<'a, T,
                 let mut e = self.vec(v).at_mut(at);
                 e.downcast_mut::<T>().expect("downcast_mut of the right type").set_id(id);
             }
+            ViewKind::ElemMutTypedUnchecked => {
+                let mut e = self.vec(v).at_mut(at);
+                unsafe { e.downcast_mut_unchecked::<T>() }.set_id(id);
+            }
             ViewKind::GetMutTyped => {
                 let mut e = self.vec(v).get_mut(at).expect("index out of range");
                 AnyValueMut::downcast_mut::<T>(&mut *e).expect("downcast_mut of the right type").set_id(id);
@@ -915,6 +944,37 @@ impl<'a, T: Elem + SatisfyTraits<Tr>, M: MemCaps, Tr: ?Sized + TrCaps> Cx<'a, T,
                 let mut tv = self.vec(v).downcast_mut::<T>().expect("typed view of the right type");
                 let r = probe_val(&*tv.at_mut(at));
                 self.val(r)
+            }
+            // the unsafe flavours: only meaningful for an index in range (out of range the operation is not issued)
+            GetHow::GetUnchecked | GetHow::GetUncheckedMut | GetHow::TGetUnchecked | GetHow::TGetUncheckedMut if at >= len => {
+                self.out.unsupported = true;
+            }
+            GetHow::GetUnchecked => {
+                let e = unsafe { self.vec(v).get_unchecked(at) };
+                self.check_handle(&*e, addr, "get_unchecked()");
+                let x = probe_val(unsafe { e.downcast_ref_unchecked::<T>() });
+                self.val(x)
+            }
+            GetHow::GetUncheckedMut => {
+                let mut e = unsafe { self.vec(v).get_unchecked_mut(at) };
+                self.check_handle(&*e, addr, "get_unchecked_mut()");
+                let x = probe_val(&*unsafe { e.downcast_mut_unchecked::<T>() });
+                self.val(x)
+            }
+            GetHow::TGetUnchecked => {
+                let tv = unsafe { self.vec(v).downcast_ref_unchecked::<T>() };
+                let r = unsafe { tv.get_unchecked(at) };
+                if size_of::<T>() > 0 && Some(r as *const T as usize) != addr {
+                    self.note(format!("typed get_unchecked({at}) is at {:#x}, element {at} is at {:#x}", r as *const T as usize, addr.unwrap_or(0)));
+                }
+                let x = probe_val(r);
+                self.val(x)
+            }
+            GetHow::TGetUncheckedMut => {
+                let mut tv = unsafe { self.vec(v).downcast_mut_unchecked::<T>() };
+                let r = unsafe { tv.get_unchecked_mut(at) };
+                let x = probe_val(&*r);
+                self.val(x)
             }
         }
     }
